@@ -16,6 +16,7 @@ std::vector<U> keys;   // 3000 keys, irregular gaps, some duplicates
 pgm::PGMIndex<U, 4, 2> *pgm_idx;
 pgm::CompressedPGMIndex<U, 4, 2> *comp_idx;
 pgm::BucketingPGMIndex<U, 4, 16, 32> *buck_idx;
+pgm::BucketingPGMIndex<U, 4, 100, 0> *buck2_idx;
 pgm::EliasFanoPGMIndex<U, 4> *ef_idx;
 pgm::MappedPGMIndex<U, 4, 2> *map_idx;
 using MD = pgm::MultidimensionalPGMIndex<2, uint32_t, 4>;
@@ -39,6 +40,7 @@ void zoo_build(const char *dir) {
     pgm_idx = new pgm::PGMIndex<U, 4, 2>(keys.begin(), keys.end());
     comp_idx = new pgm::CompressedPGMIndex<U, 4, 2>(keys.begin(), keys.end());
     buck_idx = new pgm::BucketingPGMIndex<U, 4, 16, 32>(keys.begin(), keys.end());
+    buck2_idx = new pgm::BucketingPGMIndex<U, 4, 100, 0>(keys.begin(), keys.end());
     ef_idx = new pgm::EliasFanoPGMIndex<U, 4>(keys.begin(), keys.end());
     map_file = std::string(dir) + "/conc_mapped.bin";
     map_idx = new pgm::MappedPGMIndex<U, 4, 2>(keys.begin(), keys.end(), map_file);
@@ -51,17 +53,17 @@ void zoo_build(const char *dir) {
     for (uint32_t i = 0; i < 23; ++i) dyn_idx->insert_or_assign(11 + 5 * i, 1000 + i);
     for (uint32_t i = 0; i < 9; ++i) dyn_idx->erase(10 + 6 * i);
 }
-void zoo_destroy() { delete pgm_idx; delete comp_idx; delete buck_idx; delete ef_idx; delete map_idx; delete md_idx; delete dyn_idx; unlink(map_file.c_str()); }
+void zoo_destroy() { delete pgm_idx; delete comp_idx; delete buck_idx; delete buck2_idx; delete ef_idx; delete map_idx; delete md_idx; delete dyn_idx; unlink(map_file.c_str()); }
 
-int zoo_classes() { return 7; }
-const char *zoo_class_name(int c) { static const char *n[] = {"PGMIndex<u64,4,2>", "CompressedPGMIndex<u64,4,2>", "BucketingPGMIndex<u64,4,16,32>", "EliasFanoPGMIndex<u64,4>", "MappedPGMIndex<u64,4,2>", "MultidimensionalPGMIndex<2,u32,4>", "DynamicPGMIndex<u32,u32>(2,1,2)"}; return n[c]; }
+int zoo_classes() { return 8; }
+const char *zoo_class_name(int c) { static const char *n[] = {"PGMIndex<u64,4,2>", "CompressedPGMIndex<u64,4,2>", "BucketingPGMIndex<u64,4,16,32>", "EliasFanoPGMIndex<u64,4>", "MappedPGMIndex<u64,4,2>", "MultidimensionalPGMIndex<2,u32,4>", "DynamicPGMIndex<u32,u32>(2,1,2)", "BucketingPGMIndex<u64,4,100,0>"}; return n[c]; }
 int zoo_queries(int) { return 8; }
 const char *zoo_query_name(int c, int q) {
     static const char *s[] = {"search(present)", "search(gap)", "search(last)", "search(0)", "search(above last)", "search(present2)", "search(far)", "search(before key)"};
     static const char *m[] = {"lower_bound(present)", "upper_bound(gap)", "count(long dup run)", "contains(0)", "lower_bound(above last)", "upper_bound(long dup run)", "contains(far)", "count(absent)"};
     static const char *d[] = {"contains(stored)", "contains(absent)", "range(small box)", "range(slab with 70 misses)", "range(full)", "range(empty box)", "contains(beyond)", "range(corner)"};
     static const char *y[] = {"find(live)", "find(erased)", "count", "lower_bound(gap)", "lower_bound(below)", "range(20,90)", "full iteration", "begin+3"};
-    return c <= 3 ? s[q] : c == 4 ? m[q] : c == 5 ? d[q] : y[q];
+    return (c <= 3 || c == 7) ? s[q] : c == 4 ? m[q] : c == 5 ? d[q] : y[q];
 }
 
 uint64_t zoo_run(int c, int q) {
@@ -70,6 +72,7 @@ uint64_t zoo_run(int c, int q) {
         case 1: return search_digest(*comp_idx, q);
         case 2: return search_digest(*buck_idx, q);
         case 3: return search_digest(*ef_idx, q);
+        case 7: return search_digest(*buck2_idx, q);
         case 4: {
             Fnv f; U k = probe(q);
             switch (q) {
